@@ -137,6 +137,8 @@ structure Writer where
   pc : WPc
   tmp : Option MFile      -- content of this Update's temp file, if it exists
   seen : Option Man       -- the manifest parsed under the LOCK (none = no manifest file)
+  journal : Bool := false -- `journalManifest.Update`: the process took the LOCK when it opened the store and keeps it for
+                          -- its lifetime (no tryFileLock / Unlock per update) and the checker has no checkNewSpecsPresent
 deriving DecidableEq, Repr
 
 inductive PPc
@@ -184,12 +186,16 @@ def Sys.release (s : Sys) (a : Nat) : Sys :=
 /-- leave: the failure paths (`defer file.Remove(temp)`, deferred `Unlock`) and normal termination -/
 def Sys.leave (s : Sys) (a : Nat) : Sys := (s.release a).setActor a .none
 
+/-- a journal-manifest update ends without touching the LOCK (it is released by `jRelease` when the store is closed) -/
+def Sys.leaveW (s : Sys) (a : Nat) (w : Writer) : Sys := if w.journal then s.setActor a .none else s.leave a
+
 inductive Step
   | land (n : Name)
   | spawnWriter (a : Nat) (lastLock : Nat) (new : Man) (gc : Bool)
   | spawnPruner (a : Nat) (upstream : List Name)
   | spawnCleaner (a : Nat) (names : List Name)
-  | w (a : Nat)                    -- the writer's next program step
+  | w (a : Nat)                    -- the (file-manifest) writer's next program step
+  | jw (a : Nat)                   -- the journal-manifest writer's next program step
   | wFail (a : Nat)                -- I/O error, hook error or LOCK timeout at the current point
   | p (a : Nat)                    -- the pruner's next program step
   | pUnlink (a : Nat) (n : Name)
@@ -197,6 +203,9 @@ inductive Step
   | cUnlink (a : Nat) (n : Name)
   | retire (a : Nat)
   | crash (k : Nat)
+  | spawnJournalWriter (a : Nat) (lastLock : Nat) (new : Man) (gc : Bool)   -- an Update of the process that owns the LOCK
+  | jAcquire (a : Nat)             -- `newJournalLock`: a journaling store takes the LOCK when it is opened …
+  | jRelease (a : Nat)             -- … and releases it when it is closed
 deriving Repr
 
 def seenLock (seen : Option Man) : Nat := match seen with | none => 0 | some m => m.lock
@@ -210,30 +219,32 @@ def specsPresent (d : Dir) (seen : Option Man) (new : Man) : Bool :=
 def Sys.wStep (s : Sys) (a : Nat) (w : Writer) : Sys :=
   match w.pc with
   | .idle =>
-    if s.lock = none then { s with lock := some a }.setActor a (.writer { w with pc := .locked }) else s
+    if (if w.journal then s.lock = some a else s.lock = none) then
+      { s with lock := some a }.setActor a (.writer { w with pc := .locked })
+    else s
   | .locked => s.setActor a (.writer { w with pc := .tempCreated, tmp := some .partialW })
   | .tempCreated =>
-    if w.new.lock = 0 then s.leave a          -- writeManifest: "Lock hash cannot be empty"
+    if w.new.lock = 0 then s.leaveW a w          -- writeManifest: "Lock hash cannot be empty"
     else s.setActor a (.writer { w with pc := .written, tmp := some (.complete w.new false) })
   | .written => s.setActor a (.writer { w with pc := .synced, tmp := some (.complete w.new true) })
   | .synced =>
     match s.fs.vis.manifest with
     | none => s.setActor a (.writer { w with pc := .read, seen := none })
     | some (.complete m _) => s.setActor a (.writer { w with pc := .read, seen := some m })
-    | some .partialW => s.leave a               -- parse error
+    | some .partialW => s.leaveW a w               -- parse error
   | .read =>
-    if w.lastLock ≠ seenLock w.seen then s.leave a                           -- stale: returns upstream
+    if w.lastLock ≠ seenLock w.seen then s.leaveW a w                           -- stale: returns upstream
     else s.setActor a (.writer { w with pc := .compared })
   | .compared =>
-    if (w.gc || w.new.gcGen == seenGc w.seen) && specsPresent s.fs.vis w.seen w.new then
+    if (w.gc || w.new.gcGen == seenGc w.seen) && (w.journal || specsPresent s.fs.vis w.seen w.new) then
       s.setActor a (.writer { w with pc := .validated })
-    else s.leave a
+    else s.leaveW a w
   | .validated =>
     match w.tmp with
     | some f => { s with fs := s.fs.op (.renameMan f) }.setActor a (.writer { w with pc := .renamed, tmp := none })
-    | none => s.leave a
+    | none => s.leaveW a w
   | .renamed => { s with fs := s.fs.syncDir }.setActor a (.writer { w with pc := .dirSynced })
-  | .dirSynced => s.leave a
+  | .dirSynced => s.leaveW a w
 
 def Sys.pStep (s : Sys) (a : Nat) (p : Pruner) : Sys :=
   match p.pc with
@@ -263,11 +274,15 @@ def Sys.step (s : Sys) : Step → Sys
     | _ => s
   | .w a =>
     match s.actors a with
-    | .writer w => s.wStep a w
+    | .writer w => if w.journal then s else s.wStep a w
+    | _ => s
+  | .jw a =>
+    match s.actors a with
+    | .writer w => if w.journal then s.wStep a w else s
     | _ => s
   | .wFail a =>
     match s.actors a with
-    | .writer w => if w.pc = .renamed ∨ w.pc = .dirSynced then s else s.leave a   -- after the rename errors are fatal, not modelled
+    | .writer w => if w.pc = .renamed ∨ w.pc = .dirSynced then s else s.leaveW a w   -- after the rename errors are fatal, not modelled
     | _ => s
   | .p a =>
     match s.actors a with
@@ -289,6 +304,15 @@ def Sys.step (s : Sys) : Step → Sys
   | .retire a =>
     match s.actors a with
     | .cleaner _ => s.setActor a .none
+    | _ => s
+  | .spawnJournalWriter a l new gc =>
+    match s.actors a with
+    | .none => s.setActor a (.writer { lastLock := l, new := new, gc := gc, pc := .idle, tmp := none, seen := none, journal := true })
+    | _ => s
+  | .jAcquire a => if s.lock = none then { s with lock := some a } else s
+  | .jRelease a =>
+    match s.actors a with
+    | .none => s.release a
     | _ => s
   | .crash k =>
     { fs := { vis := s.fs.crashPrefix k, dur := s.fs.crashPrefix k, pend := [] }, lock := none, actors := fun _ => .none }
